@@ -97,6 +97,9 @@ type CaseSpec struct {
 	Overlap   bool       `json:"overlap"`    // parts are NOT name-disjoint: observed, not subject to the law
 	// schema applied (Content) to the Body of every block a step returns
 	Child Schema `json:"child"`
+	// tree-shaped history over the same body (tree.go): operations that pick any
+	// body obtained so far, also one that was used before
+	Tree []TOp `json:"tree,omitempty"`
 }
 
 var attrPool = []string{"a", "b", "c", "d", "e", "f"}
@@ -452,6 +455,10 @@ func (g *gen) genCase() *CaseSpec {
 		}
 	}
 	g.allowDyn = anyExpand || g.r.Chance(0.1)
+	wantTree := g.r.Chance(0.4)
+	if wantTree && g.r.Chance(0.5) {
+		g.allowDyn = true // the tree may apply dynblock.Expand to a derived body
+	}
 	var cfgs []*Cfg
 	for i := 0; i < nfiles; i++ {
 		syntax := "hcl"
@@ -502,6 +509,9 @@ func (g *gen) genCase() *CaseSpec {
 		cs.Overlap = true
 	}
 	cs.Child = g.genChildSchema()
+	if wantTree {
+		cs.Tree = g.genTree(cs)
+	}
 	return cs
 }
 
